@@ -242,4 +242,6 @@ def run(cx, tier='quick'):
     rep.floor('SUM-HASH', 2)
     rep.assumptions += ['::core::hash::Hash::hash of usize/fields feeds data determined by the value', 'union Hash is covered by C20']
     rep.not_decided += ['whether a user field type\'s Hash distinguishes values (premise of the property)']
+    from .binders import check_binder_injectivity
+    check_binder_injectivity(cx, rep, ['::hash::'])
     return rep
